@@ -774,7 +774,7 @@ class OdeSystem(object):
         int
             integer number of steps to allocate in the solution arrays of y and t. Defaults to 10 if the final time is set to infinity.
         """
-        if D.ar_numpy.to_numpy(tf) == np.inf:
+        if np.isinf(D.ar_numpy.to_numpy(tf)):
             return 10
         else:
             return max(1, min(5000, int((tf - self.__t[self.counter]) / self.dt)))
@@ -995,7 +995,7 @@ class OdeSystem(object):
         events, is_terminal, direction, last_occurrence, requires_dstate = prepare_events(events, self.__y[0])
 
         implicit_integration = False
-        if D.ar_numpy.to_numpy(tf) == np.inf:
+        if np.isinf(D.ar_numpy.to_numpy(tf)):
             implicit_integration = True
             if not any(is_terminal):
                 deutil.warning(
@@ -1011,7 +1011,7 @@ class OdeSystem(object):
         total_steps = self.__alloc_space_steps(tf)
 
         if eta:
-            if tf == np.inf:
+            if np.isinf(D.ar_numpy.to_numpy(tf)):
                 tqdm_progress_bar = tqdm(total=None)
             else:
                 tqdm_progress_bar = tqdm(total=int((tf - self.__t[self.counter]) / self.dt) + 1)
@@ -1127,7 +1127,7 @@ class OdeSystem(object):
 
                 if tqdm_progress_bar is not None:
                     tqdm_progress_bar.total = tqdm_progress_bar.n
-                    if D.ar_numpy.to_numpy(tf) == np.inf:
+                    if np.isinf(D.ar_numpy.to_numpy(tf)):
                         tqdm_progress_bar.total = None
                     else:
                         tqdm_progress_bar.total = tqdm_progress_bar.n + int((tf - self.__t[self.counter]) / self.dt) + 1
